@@ -10,6 +10,8 @@ A constructor that rejects the form with an exception is counted, not charged
 the property that owns the class (the calling check decides which drivers it
 explores).
 """
+import os
+
 import numpy as np
 
 from . import drivers as D
@@ -125,6 +127,9 @@ def cases(names, tier):
             for nm in input_names(drv, model):
                 for f in FORMS:
                     out.append([dname, mi, tier, nm, f])
+            # not an input form but an option every constructor takes: full
+            # verbosity (silence_level=0) must not change any result
+            out.append([dname, mi, tier, "*", "silence0"])
     return out
 
 
@@ -137,12 +142,18 @@ def fam_forms(case):
     D.FORM = None
     ref_obj = drv.construct(model)
     a = drv.last_inputs.get(nm)
-    if a is None or convert(a, form) is None:
+    if form != "silence0" and (a is None or convert(a, form) is None):
         res.update(trivial=True, excluded={"form not applicable: " + form: 1})
         return res
     ref = [outcome(drv.call, ref_obj, q) for q in qs]
     drv.clear_caches(ref_obj)
-    D.FORM = (nm, form)
+    if form == "silence0":
+        D.SILENCE = 0
+        err = os.dup(2)
+        null = os.open(os.devnull, os.O_WRONLY)
+        os.dup2(null, 2)          # progress bars go to stderr
+    else:
+        D.FORM = (nm, form)
     try:
         try:
             obj = drv.construct(model)
@@ -154,6 +165,11 @@ def fam_forms(case):
         got = [outcome(drv.call, obj, q) for q in qs]
     finally:
         D.FORM = None
+        if form == "silence0":
+            D.SILENCE = 3
+            os.dup2(err, 2)
+            os.close(err)
+            os.close(null)
     viol = res["viol"]
     tol = drv.tol
     if form == "f32":
